@@ -385,10 +385,18 @@ class MeiParser(object):
         els_with_dur = self.music_el.xpath(".//*[@dur]")
         durs = []
         durs_ppq = []
+        quarters = []
         for el in els_with_dur:
             symbolic_duration = self._get_symbolic_duration(el)
             intsymdur, dots, tuplet_mod = self._intsymdur_from_symbolic(
                 symbolic_duration
+            )
+            # the notated length of the element in quarters
+            quarters.append(
+                Fraction(4)
+                / Fraction(intsymdur)
+                * Fraction(2 ** (dots + 1) - 1, 2**dots)
+                * (Fraction(*tuplet_mod) if tuplet_mod is not None else 1)
             )
             if tuplet_mod is not None:
                 # consider time modifications keeping the numerator of the minimized fraction
@@ -402,11 +410,13 @@ class MeiParser(object):
 
         if any([dppq is not None for dppq in durs_ppq]):
             # there is at least one element with both dur and dur.ppq
-            for dur, dppq in zip(durs, durs_ppq):
+            # (its dur.ppq is its notated length, dots and tuplet ratio
+            # included, in pulses)
+            for dur_q, dppq in zip(quarters, durs_ppq):
                 if dppq is not None:
-                    ppq = dppq * dur / 4
+                    ppq = dppq / dur_q
                     # (divisions are integers)
-                    return int(ppq) if ppq == int(ppq) else ppq
+                    return int(ppq) if ppq == int(ppq) else float(ppq)
         else:
             # compute the ppq from the durations
             # add 4 to be sure to not go under 1 ppq
